@@ -122,6 +122,19 @@ CLAIMED.update({
         ref="DESIGN.md section 5 C08 and section 11",
         technique="Coq proof (totality with explicit Panic values in the model: theorems state that no input reaches one) + differential correspondence under catch_unwind, evaluated by vm_compute",
         note=TB + " only the command grammar parts listed in DESIGN.md are modelled (numeric arguments, DQE, slices); TUI input handling is not."),
+    "C09": dict(
+        text=("Theorems (Coq, any number of threads, every schedule of the abstract ptrace kernel, any breakpoint table): Tracer::resume keeps the coupling "
+              "invariant between the tracer's table and the kernel's thread states and, whenever it reports a breakpoint / watchpoint / non-quiet signal, "
+              "every thread - registered or not - is stopped (C09_all_stop, C09_all_stop_runs for any number of consecutive resumes, "
+              "C09_all_stop_single_step, C09_stays_stopped). Exactly-once is refuted with a witness while temporary breakpoints exist "
+              "(C09_arrival_swallowed_refuted) and holds on the stated example (C09_nonvacuous); both refutations found on the real debugger are recorded "
+              "findings (tmp-bp-swallow, focus-switch), a third defect was repaired (fix 6f9b88c). Tie: seeded multi-threaded debuggees (1-64 threads, "
+              "creation/exit storms, CPU pinning, delays injected inside the tracer); at every stop /proc task states, thread lists and the debuggee's own "
+              "counters decide the statement, and the tracer's recorded event log (every waitpid answer and ptrace request) is replayed through the Coq "
+              "model, which must issue the same requests and return the same stops."),
+        ref="DESIGN.md section 5 C09 and section 11",
+        technique="Coq proof (invariant over all schedules of an abstract ptrace kernel, induction over the tracer's loops) + translator (signal lists, dequeue flag) + end-to-end trace replay of the real tracer's event log through the model, evaluated by vm_compute",
+        note=TB + " the kernel model is hand-written from ptrace(2); HashMap iteration order of TraceeCtl is not observable (requests compared per thread); attach, fork, pause and watchpoint stops are outside the leg."),
     "C10": dict(
         text=("Theorems (Coq, every tracer state, kernel state and schedule of the kernel model): the continue phase hands the dequeued signal to its thread "
               "exactly once and nothing else (C10_continue_partial, C10_continue_nothing_else); a quiet signal seen inside single_step is queued, taken back and "
@@ -183,7 +196,6 @@ CLAIMED.update({
 })
 
 NOT_YET = {
-    "C09": "not claimed yet: model (Model/Tracer.v) and theorems (Properties/C09.v: C09_all_stop, C09_all_stop_runs, C09_arrival_swallowed_refuted) are built and checked, but the tie to the real tracer for multi-threaded schedules (trace-replay leg) is still under construction; claiming it without the tie would not meet the brief",
     "C20": "not applicable: the property is agreement with the tokio runtime's internal structures (tokio 1.40-1.44); no tokio source, crate or binary exists in this sealed sandbox, so no executable model can be tied to anything real (DESIGN.md section 5 C20)",
 }
 
